@@ -51,7 +51,7 @@ def _work_col_group_arg(arg, *, arg_name: str, columns: Iterable[str]):
         return res
     elif arg == 1:
         return 1
-    assert ValueError(f"Need {arg_name} to be a list of strings or 1, got {arg}")
+    raise ValueError(f"Need {arg_name} to be a list of strings or 1, got {arg}")
 
 
 def _convert_on_clause_to_parallel_lists(on) -> Tuple[List[str], List[str]]:
